@@ -59,7 +59,8 @@ func (x *Exec) genCandidates(fr *Frame, l *loopRec, st *State, ms *ModSet) []*ca
 			cellName[a.Cell] = n
 		}
 	}
-	for id, v := range st.cells {
+	for _, id := range sortedCellIDs(st.cells) {
+		v := st.cells[id]
 		nm, ok := cellName[id]
 		if !ok {
 			continue
@@ -95,7 +96,26 @@ func (x *Exec) genCandidates(fr *Frame, l *loopRec, st *State, ms *ModSet) []*ca
 			}
 		}
 	}
-	// slice-typed cells modified in the loop still have len >= 0 (type fact); skip
+	// slice-typed cells modified in the loop: their backing array is nil or was allocated by this activation
+	for _, id := range sortedCellIDs(st.cells) {
+		v := st.cells[id]
+		nm, ok := cellName[id]
+		if !ok || v.GT == nil || !ms.cells[id] {
+			continue
+		}
+		if _, isSlice := v.GT.Underlying().(*types.Slice); !isSlice {
+			continue
+		}
+		id := id
+		x.birth()
+		cands = append(cands, &candidate{linv: linv{name: "fresh-or-nil(base(" + nm + "))", kind: "inferred", eval: func(s *State) (string, error) {
+			c, ok := s.cells[id]
+			if !ok {
+				return "", fmt.Errorf("dead")
+			}
+			return or(eq(c.L[0], "0"), "(> (birth "+c.L[0]+") "+x.entryNow+")"), nil
+		}}, alive: true})
+	}
 	cellTerm := func(id int) func(s *State) (string, *Sort, bool) {
 		return func(s *State) (string, *Sort, bool) {
 			c, ok := s.cells[id]
@@ -181,32 +201,77 @@ func (x *Exec) falsified(st *State, terms []string, tag string) (bad map[int]boo
 		names[i] = fmt.Sprintf("cand!%d", i)
 		defs = append(defs, fmt.Sprintf("(declare-const %s Bool)\n(assert (= %s %s))", names[i], names[i], t))
 	}
-	goalBody := "(and " + strings.Join(names, " ") + ")"
-	if len(names) == 1 {
-		goalBody = names[0]
+	goalBody := "(and " + strings.Join(terms, " ") + ")"
+	if len(terms) == 1 {
+		goalBody = terms[0]
 	}
-	hyps := []string{st.pc}
-	hyps = append(hyps, terms...) // for dependency slicing only; removed below
-	txt := x.vc.Emit([]string{st.pc, "(or true " + strings.Join(terms, " ") + ")"}, "", false)
-	txt = strings.Replace(txt, "(check-sat)\n", strings.Join(defs, "\n")+"\n(assert (not "+goalBody+"))\n(check-sat)\n(get-value ("+strings.Join(names, " ")+"))\n", 1)
+	// go through Emit with a real goal so that quantified hypotheses get instantiated
+	txt := x.vc.Emit([]string{st.pc}, goalBody, false)
+	txt = strings.Replace(txt, "(check-sat)\n", strings.Join(defs, "\n")+"\n(check-sat)\n(get-value ("+strings.Join(names, " ")+"))\n", 1)
 	txt = "(set-option :produce-models true)\n" + txt
 	dir := filepath.Join(outDir(), "out", "infer")
 	os.MkdirAll(dir, 0o755)
 	x.inferN++
 	f := filepath.Join(dir, fmt.Sprintf("%s_%s_%d.smt2", sanitize(shortFn(x.rootFn)), tag, x.inferN))
 	os.WriteFile(f, []byte(txt), 0o644)
-	r := runSolver(context.Background(), solvers[0], f, 5)
+	r := runSolver(context.Background(), inferSolver, f, 30)
 	x.inferQueries++
+	if os.Getenv("GOVC_DEBUG_INFER") != "" {
+		fmt.Fprintf(os.Stderr, "infer %s n=%d -> %s (%.2fs) %s\n", tag, len(terms), r.verdict, r.secs, filepath.Base(f))
+	}
+	if r.verdict != "unsat" && r.verdict != "sat" && len(terms) > 1 {
+		// undecided as a batch (quantified hypotheses): decide each candidate on its own;
+		// only a proof (unsat) keeps a candidate
+		bad = map[int]bool{}
+		for i, t := range terms {
+			b2, ok := x.falsified(st, []string{t}, tag+"1")
+			if !ok || b2 != nil {
+				bad[i] = true
+			}
+		}
+		if len(bad) == 0 {
+			return nil, true
+		}
+		return bad, true
+	}
 	switch r.verdict {
 	case "unsat":
 		return nil, true
 	case "sat":
 		bad = map[int]bool{}
-		for _, m := range getValRe.FindAllStringSubmatch(r.out, -1) {
-			if m[2] == "false" {
-				var idx int
-				fmt.Sscanf(m[1], "cand!%d", &idx)
+		var other []int
+		body := r.out
+		if k := strings.Index(body, "("); k >= 0 {
+			body = body[k:]
+		}
+		for _, pair := range sexpList(body) {
+			kv := sexpList(pair)
+			if len(kv) != 2 {
+				continue
+			}
+			var idx int
+			if _, err := fmt.Sscanf(kv[0], "cand!%d", &idx); err != nil {
+				continue
+			}
+			switch strings.TrimSpace(kv[1]) {
+			case "true":
+			case "false":
 				bad[idx] = true
+			default:
+				other = append(other, idx)
+			}
+		}
+		if len(bad) == 0 {
+			// the model leaves some candidates undetermined (quantified definitions): decide those alone
+			for _, i := range other {
+				if len(terms) == 1 {
+					bad[i] = true
+					continue
+				}
+				b2, ok := x.falsified(st, []string{terms[i]}, tag+"1")
+				if !ok || b2 != nil {
+					bad[i] = true
+				}
 			}
 		}
 		if len(bad) == 0 {
@@ -344,3 +409,9 @@ func (x *Exec) houdini(fr *Frame, l *loopRec, entry *State, ms *ModSet, given []
 	}
 	return out
 }
+
+// inference queries are bounded by a resource limit, not by time, so that the set of
+// inferred invariants does not depend on machine load
+var inferSolver = solverSpec{"z3-new", func(f string, t float64) []string {
+	return []string{"z3-new", "rlimit=30000000", fmt.Sprintf("-T:%d", int(t)+1), f}
+}}
